@@ -53,3 +53,33 @@ package jsondb
 //@   loop 1 invariant 0 <= #i && #i <= len(sigs) && s.db != nil && s.db == pre(s.db) && (s.sigMap == pre(s.sigMap) || freshSincePre(s.sigMap))
 //@   loop 1 invariant WF(s) && sref(sigs) != sref(s.db.Signatures)
 //@   loop 1 invariant forall t in 0..#i :: (sigs[t].ID in s.sigMap) && ((forall u in t+1..#i :: sigs[u].ID != sigs[t].ID) ==> s.db.Signatures[s.sigMap[sigs[t].ID]] == sigs[t])
+
+// ---- C08: alerts produced by the JSON store's scans
+
+//@ pred wfDB(s *Scanner) = forall j in 0..len(s.db.Signatures) :: wfSig(s.db.Signatures[j])
+//@ pred justified(r detection.ScanResult, s *Scanner, topo *topology.FunctionTopology, thr float64) = unit(r.Confidence) && r.Confidence >= thr
+//@   && (exists j in 0..len(s.db.Signatures) :: s.db.Signatures[j].ID == r.SignatureID && allOccur(topo, s.db.Signatures[j]))
+
+//@ func (*Scanner).ScanTopology$1
+//@   requires 0 <= i && i < len(*results) && 0 <= j && j < len(*results)
+//@   ensures result == ((*results)[i].Confidence > (*results)[j].Confidence)
+
+//@ func (*Scanner).ScanTopology
+//@   requires s != nil && (s.db != nil ==> wfDB(s)) && wfTopo(topo)
+//@   requires s.matchThreshold > 0 && !isNaN(s.entropyTolerance) && s.entropyTolerance >= 0
+//@   ensures [C08.thr] forall k in 0..len(result0) :: justified(result0[k], s, topo, s.matchThreshold)
+//@   ensures [C08.sorted] forall a, b in 0..len(result0) :: a < b ==> result0[a].Confidence >= result0[b].Confidence
+//@   ensures [C08.noerr] result1 == nil
+//@   loop 1 invariant (sref(*results) == 0 || fresh(*results))
+//@   loop 1 invariant 0 <= #i && forall k in 0..len(*results) :: justified((*results)[k], s, topo, s.matchThreshold)
+
+//@ func (*Scanner).ScanTopologyExact
+//@   requires s != nil && (s.db != nil ==> wfDB(s)) && wfTopo(topo)
+//@   ensures [C08.exact] result0 != nil ==> justified(*result0, s, topo, 0.99)
+//@   ensures [C08.noerr] result1 == nil
+
+//@ func (*Scanner).SetThreshold
+//@   requires s != nil
+//@   modifies s
+//@   ensures [C08.setthr] result == nil ==> s.matchThreshold == threshold && finite(threshold) && 0 <= threshold && threshold <= 1
+//@   ensures [C08.setthr] result != nil ==> *s == old(*s)
